@@ -13,6 +13,7 @@ import (
 	"crypto/tls"
 	"net/http"
 	"net/url"
+	"time"
 )
 
 const (
@@ -55,10 +56,12 @@ func shBring(ln *e2eListener, name string, state int) *e2eConn {
 	return c
 }
 
+// a few seconds pass: every armed timer of at most 5 s expires (Shutdown's poll timer, the HTTP/2
+// server's 1 s / 2 s timers) - not the minutes-long idle timers
 func shTimePasses(rounds int) {
 	for r := 0; r < rounds; r++ {
 		for k := 0; k < vTimerCount(); k++ {
-			if vTimerArmed(k) {
+			if vTimerArmed(k) && vTimerNanos(k) <= int64(5*time.Second) {
 				vTimerFire(k)
 			}
 		}
@@ -74,7 +77,7 @@ func (c *e2eConn) unanswered() bool {
 }
 
 func VerifC17_shutdown() {
-	vThreads()
+	vSchedulePolicy(vRange("schedulePolicy", 0, 2)) // thread mode, under each of the three scheduling policies
 	flagPreserveHost, flagEnableKubernetesProbe, flagVerboseLogs = e2eBoolp(false), e2eBoolp(false), e2eBoolp(false)
 	flagTimeoutHTTPIdle, flagTimeoutHTTPRead, flagTimeoutHTTPWrite, flagTimeoutTLSHandshake = e2eStrp("3m"), e2eStrp("0"), e2eStrp("0"), e2eStrp("10s")
 	flagReverseProxyFlushInterval = e2eStrp("100ms")
